@@ -522,6 +522,10 @@ fn render_child_fragment<F: Fn() -> TokenStream>(
         let new_depth = depth.map_or(0, |x|x+1);
         match ctx.kind {
             Kind::OwnedInto | Kind::RefInto => {
+                if ctx.has_post_init {
+                    return render_existing_child(fields, ctx.input.named_fields(), ctx, (child_path, new_depth));
+                }
+
                 let mut child_parents = ctx.input.get_attrs().child_parents_attr(&ctx.struct_attr.ty).unwrap().child_parents.iter();
                 let child_data = child_parents.find(|child_data| child_data.check_match(child_path.get_child_path_str(Some(new_depth)))).unwrap();
                 
@@ -688,14 +692,19 @@ fn render_struct_line(
 
     match (member, attr, &ctx.kind, hint) {
         (Named(ident), None, Kind::OwnedInto | Kind::RefInto, TypeHint::Struct | TypeHint::Unspecified) =>
-            if ctx.has_post_init { quote!(obj.#ident = #obj #ident;) } else { quote!(#ident: #obj #ident,) },
+            if ctx.has_post_init {
+                let field_path = get_field_path(&f.member);
+                quote!(obj.#field_path = #obj #ident;)
+            } else {
+                quote!(#ident: #obj #ident,)
+            },
         (Named(ident), None, Kind::OwnedIntoExisting | Kind::RefIntoExisting, TypeHint::Struct | TypeHint::Unspecified) => {
             let field_path = get_field_path(&f.member);
             quote!(other.#field_path = #obj #ident;)
         },
         (Named(ident), None, Kind::OwnedInto | Kind::RefInto, TypeHint::Tuple) =>
             if ctx.has_post_init {
-                let index = Unnamed(Index { index: idx as u32, span: Span::call_site() });
+                let index = get_field_path(&Unnamed(Index { index: idx as u32, span: Span::call_site() }));
                 quote!(obj.#index = #obj #ident;)
             } else {
                 quote!(#obj #ident,)
@@ -723,7 +732,7 @@ fn render_struct_line(
         },
         (Unnamed(index), None, Kind::OwnedInto | Kind::RefInto, TypeHint::Tuple | TypeHint::Unspecified) =>
             if ctx.has_post_init {
-                let index2 = Unnamed(Index { index: idx as u32, span: Span::call_site() });
+                let index2 = get_field_path(&Unnamed(Index { index: idx as u32, span: Span::call_site() }));
                 quote!(obj.#index2 = #obj #index;)
             } else {
                 let index = if ctx.impl_type.is_variant() { format_ident!("f{}", index.index).to_token_stream() } else { index.to_token_stream() };
@@ -760,7 +769,12 @@ fn render_struct_line(
             let field_name = attr.get_field_name_or(&f.member);
             let field_path = get_child_field_path(&f.member);
             let right_side = attr.get_action_or(Some(&field_path), ctx, || quote!(#obj #field_path));
-            if ctx.has_post_init { quote!(obj.#field_name = #right_side;) } else { quote!(#field_name: #right_side,) }
+            if ctx.has_post_init {
+                let left_field_path = get_field_path(field_name);
+                quote!(obj.#left_field_path = #right_side;)
+            } else {
+                quote!(#field_name: #right_side,)
+            }
         },
         (Named(_), Some(attr), Kind::OwnedIntoExisting | Kind::RefIntoExisting, TypeHint::Struct | TypeHint::Unspecified) => {
             let left_field_path = get_field_path(attr.get_field_name_or(&f.member));
@@ -772,7 +786,7 @@ fn render_struct_line(
             let right_field_path = get_child_field_path(&f.member);
             let right_side = attr.get_action_or(Some(&right_field_path), ctx, || quote!(#obj #right_field_path));
             if ctx.has_post_init {
-                let index = Unnamed(Index { index: idx as u32, span: Span::call_site() });
+                let index = get_field_path(&Unnamed(Index { index: idx as u32, span: Span::call_site() }));
                 quote!(obj.#index = #right_side;)
             } else {
                 quote!(#right_side,)
@@ -800,7 +814,7 @@ fn render_struct_line(
             let field_path = get_child_field_path(index);
             let right_side = attr.get_action_or(Some(&field_path), ctx, || quote!(#obj #field_path));
             if ctx.has_post_init {
-                let index = Unnamed(Index { index: idx as u32, span: Span::call_site() });
+                let index = get_field_path(&Unnamed(Index { index: idx as u32, span: Span::call_site() }));
                 quote!(obj.#index = #right_side;)
             } else {
                 quote!(#right_side,)
@@ -818,7 +832,8 @@ fn render_struct_line(
             let or = if ctx.impl_type.is_variant() { format_ident!("f{}", index.index).to_token_stream() } else { field_path };
             let right_side = attr.get_action_or(Some(&or), ctx, || quote!(#obj #or));
             if ctx.has_post_init {
-                quote!(obj.#field_name = #right_side;)
+                let left_field_path = get_field_path(field_name);
+                quote!(obj.#left_field_path = #right_side;)
             } else {
                 quote!(#field_name: #right_side,)
             }
